@@ -597,3 +597,47 @@ class S:
                 v *= math.log(abs(H if isinstance(H, int) else evp(H))) ** pw
             tot += v
         return tot
+
+
+def sdiff(s, varname):
+    """exact derivative of an S element with respect to the symbolic variable `varname`"""
+    ctx = s.ctx
+    gen = ctx.g[varname]
+    pgen = gen.numer  # ring generator
+
+    def dK(k):
+        return k.diff(gen)
+
+    def dP(p):
+        return ctx.K(p.diff(pgen))
+
+    out = ctx.ZERO
+    for (e, sq, ln), c in s.t.items():
+        # log-derivative of the non-ln part
+        coef = dK(c)
+        if e != 0:
+            coef = coef + c * dK(e)
+        for G in sq:
+            if isinstance(G, int):
+                continue
+            if isinstance(G, tuple):
+                f = G[1]
+                coef = coef + c * dP(f) / ctx.K(f)
+            else:
+                coef = coef + c * dP(G) / (2 * ctx.K(G))
+        if coef != 0:
+            out = out + S(ctx, {(e, sq, ln): coef})
+        # derivative of the ln monomial
+        for (H, p) in ln:
+            if isinstance(H, int):
+                continue
+            dH = dP(H)
+            if dH == 0:
+                continue
+            rest = dict(ln)
+            if p == 1:
+                del rest[H]
+            else:
+                rest[H] = p - 1
+            out = out + S(ctx, {(e, sq, frozenset(rest.items())): c * p * dH / ctx.K(H)})
+    return out
